@@ -89,6 +89,9 @@ ProvideEv(ev, t) ==
           \o << <<"C15.deposit.tolerance<=1", (slip = "none" \/ st.S = Zero) \/ slip \preceq DEC>>,
                 <<"C15.deposit.bound",
                    (slip # "none" /\ slip \preceq DEC /\ live /\ st.ptype = "cp") => SlipBoundCp(st, d, slip)>>,
+                <<"C15.deposit.bound(stableswap)",
+                   (slip # "none" /\ slip \preceq DEC /\ live /\ st.ptype = "stable") =>
+                     StSlipBound(R(st, 1) ++ R(st, 2), st.S, d[1] ++ d[2], m, slip)>>,
                 <<"drift.provide.minted",
                    (st.ptype = "cp" /\ (st.S = Zero \/ live)) => m = ImplMintCp(st, d)>> >>
           \o StableProvideClauses(ev, t)
@@ -105,7 +108,9 @@ WithdrawEv(ev, t) ==
   IN IF ev.res = "ok"
      THEN WithdrawChecks(st, u, amt, out)
           \o << <<"C01.deposit-then-withdraw",
-                   ( /\ last.ev = "provide" /\ last.actor = u /\ last.recv = u /\ last.minted = amt
+                   \* (asset by asset only in a constant-product pool: a stableswap deposit may be one-sided and is paid
+                   \*  back in pool proportion; its value rule is C03's mint and withdrawal clauses)
+                   ( /\ st.ptype = "cp" /\ last.ev = "provide" /\ last.actor = u /\ last.recv = u /\ last.minted = amt
                      /\ (Zero \prec last.preS \/ last.preBal = <<Zero, Zero>>) )
                    => \A a \in 1 .. 2 : out[a] \preceq last.d[a]>>,
                 <<"drift.withdraw.refund", Zero \prec st.S => out = ImplRefund(st, amt)>> >>
